@@ -4,6 +4,21 @@ import json, os
 HERE = os.path.dirname(os.path.dirname(os.path.abspath(__file__)))
 
 CLAIMS = {
+    "C13": ("primitive-level reading of the seven Variable kinds (randomize/correct/decode/get_bounds/size/children/validators) against domain laws; idempotence by primitive composition; validator formulas via FRM",
+            "Static: every law is reduced to obligations on primitives read from models.py - sampling primitive and its range "
+            "arguments, clamp arguments in (low, high) order from the variable's own fields, discrete index range 0..len-1 and "
+            "decode indexing, element-wise delegation of the multi kinds to children built from the measured sequence, validators "
+            "rejecting upper <= lower / length mismatch / n_vars <= 0 with ValueError. Known finding: PermutationVariable.correct = "
+            "argsort is not idempotent and decode re-applies it.",
+            "numpy primitive summaries; behaviour on huge/inf/NaN/numpy-scalar inputs not decided.",
+            "DESIGN.md 4/C13"),
+    "C14": ("return-shape inference of the Variable protocol vs the has_children() discriminator + sibling agreement of the four Task flatteners + slicing rule of transform_solution",
+            "Static shape typing: get_bounds/randomize/get of each kind must have the shape Task unpacks for its has_children() value; "
+            "get_variables, get_bounds, empty_solution and transform_solution must use the same discriminator; space_dimension is the "
+            "sum of sizes; transform_solution slices by a running counter of size() and keys by name with no bypass; correct_solution "
+            "zips every coordinate with its variable.",
+            "Field annotations are the field types; PermutationVariable is the declared shape exception.",
+            "DESIGN.md 4/C14"),
     "C03": ("path-order rule on optimize() + who-may-write closure after the best assignment + ORD abstract evaluation + SGN parity",
             "Static: in the main loop the best agent is assigned from special_agents(self._population, 1, 1) after the step and the "
             "snapshot, nothing reachable afterwards writes _population/_best_agent, the ORD evaluator proves the first unpacked "
